@@ -931,7 +931,10 @@ func (rd *storeRound) stress() {
 // Driver
 // ---------------------------------------------------------------------
 
-func runStoreRound(r *ev.Run, j int, schedule string) {
+// runStoreRound returns false if the round had to be abandoned (hang
+// policy): its goroutines may still be running, so no further round can be
+// judged in this process.
+func runStoreRound(r *ev.Run, j int, schedule string) bool {
 	rng := r.Rand(storeStream, uint64(j))
 	rd := &storeRound{
 		r: r, idx: j, rng: rng, schedule: schedule,
@@ -1013,6 +1016,7 @@ func runStoreRound(r *ev.Run, j int, schedule string) {
 		storeSampled = true
 		r.Sample(rd.witness(nil))
 	}
+	return !rd.inconclusive
 }
 
 var storeSampled bool
@@ -1025,7 +1029,9 @@ func runStore(r *ev.Run) {
 	r.Assume("store: 'eventually written' is judged as: after faults stop, Gets on fresh digests until one causes no write (at most 30); the Prometheus counters of the store are process-global, so no other user of BlobAccessMutableProtoStore may run concurrently with this monitor")
 	total := r.Pick(420, 6300)
 	for j := 0; j < total; j++ {
-		runStoreRound(r, j, scheduleOf(j))
+		if !runStoreRound(r, j, scheduleOf(j)) {
+			return
+		}
 	}
 	r.Floor("store:dirty-release-during-write-in-flight", 40)
 	r.Floor("store:update-during-write-in-flight", 40)
